@@ -157,6 +157,13 @@ func main() {
 		fo.Obligations = n
 		res.Funcs = append(res.Funcs, fo)
 	}
+	if u.Name == "lib" {
+		tos, tfo := u.tableObligations(fre, kre)
+		allObls = append(allObls, tos...)
+		if len(tos) > 0 {
+			res.Funcs = append(res.Funcs, tfo...)
+		}
+	}
 	// file-level lemmas: closed formulas over the spec library, proved once
 	if u.Name == "lib" {
 		for _, lm := range u.Contracts.Lemmas {
@@ -201,7 +208,7 @@ func main() {
 			oo := OblOut{Name: o.Name, Kind: o.Kind, Func: o.Func, Unit: o.Unit, Pos: o.Pos, Src: o.Src, Expect: o.Expected}
 			if o.Trivial {
 				oo.Status = "unsat"
-				oo.Solver = "syntactic"
+				oo.Solver = "ground-eval"
 				if o.Goal.S != "true" {
 					oo.Status = "sat"
 				}
